@@ -9,7 +9,9 @@
 //!   chrono's own code;
 //! * `lz.env`: the public route.  The TZif bytes are written to a file under a scratch directory
 //!   of this process, `TZ=:/abs/path` is set, the conversions run with `chrono::Local` on a fresh
-//!   thread (the zone cache is thread-local), `TZ` is restored.
+//!   thread (the zone cache is thread-local), `TZ` is restored.  A file the reader rejects is
+//!   reported as `err:<variant>` (through the hook) and not converted: `Local` would silently use
+//!   its fall-back zone, which is C18's subject.
 //!
 //! Instants and wall-clock readings travel as whole seconds (`DateTime::from_timestamp(x, 0)`),
 //! results as offsets in seconds (`lz.rt`: as Unix timestamps).
@@ -155,7 +157,11 @@ pub fn dispatch(op: &str, a: &[Val]) -> Option<Val> {
             let dir = a[2].int()?;
             if dir != 0 && dir != 1 { return None; }
             let ns = secs_list(&a[3])?;
-            Some(op_env(a[0].bytes()?, dir, ns))
+            let bytes = a[0].bytes()?;
+            // a file the reader rejects would silently select the fall-back zone (C18's subject):
+            // report the rejection instead of converting in whatever zone that is
+            if let Err(e) = Zone::from_tzif(bytes) { return Some(err_of(&e)); }
+            Some(op_env(bytes, dir, ns))
         })(),
         _ => return None,
     };
